@@ -16,7 +16,7 @@ from rv import core, zoo, monitors
 
 ANCHORS = ['clustering_gmm', 'get_transform_fxn', 'selection_std', 'fit_beads_autofluorescence']      # functions the property is anchored in: never entered => inconclusive
 LEVEL = 'exploration'
-LEVEL_TEXT = 'Ground-truth oracle on synthetic bead samples (known partition and law) for the whole calibration workflow in two containers, plus permutation/reseed metamorphic runs and multi-channel reordered conversion; failures inside the documented equal-count-seeding mechanism are a listed known finding, everything outside it must hold strictly. Exploration: reach comes from sample diversity, not enumeration.'
+LEVEL_TEXT = 'Ground-truth oracle on synthetic bead samples (known partition and law) for the whole calibration workflow in two containers, plus permutation/reseed metamorphic runs and multi-channel reordered conversion; failures inside three listed mechanisms (equal-count seeding of the mixture, optimiser termination scatter of the fit, strays of a piled-up subpopulation) are known findings classified by mechanism predicates, everything outside them must hold strictly. Exploration: reach comes from sample diversity, not enumeration.'
 TECHNIQUE = 'runtime contract on the calibration workflow with ground-truth oracle (known partition and law) + permutation/reseed metamorphic runs'
 RULE = ('synthetic bead samples: 6..8 subpopulations, adjacent brightness ratio in [2.5,4], CV 2..5%, 200..800 events '
         'each (balanced: one size +-10%; unbalanced: independent sizes), random event order, slope in [0.9,1.2], intercept '
@@ -24,7 +24,7 @@ RULE = ('synthetic bead samples: 6..8 subpopulations, adjacent brightness ratio 
         'saturated brightest/dimmest, optional unknown (None/NaN) entries x clustering channel subsets x statistic '
         '(median/mean) x seeds; non-trivial = every case; distinct = digest(events)'
         ' Also: selection on a log axis or with an explicit lower threshold, populations entirely on the lower limit, requests naming a channel twice, target samples whose columns are arranged unlike the beads file, the short return form with progress messages.')
-ASSUMPTIONS = ['float32 ($DATATYPE=F) bead files holding RFI directly; subpopulation statistics evaluated in the sample dtype',
+ASSUMPTIONS = ['bead files holding RFI directly ($DATATYPE=F) or 10-bit log-amplified integers converted by the real to_rfi; subpopulation statistics evaluated in the sample dtype',
                'clause 4 reuses fit_beads_autofluorescence (decided by C09)',
                'known-finding classifier: the K middle-half equal-count quantile windows (ordered by display-space distance '
                'to the minimum) do not have K distinct majority populations']
